@@ -8,9 +8,11 @@ structure ColsOK {α : Type} (x : Ext α) (sh : Nat → String) (comma : Bool) (
   nsamples : 0 < a.samples.length
   /-- sample names are not empty (the sample count is the number of non-empty fields of line 1) -/
   sampleNames : ∀ s ∈ a.samples, s ≠ ""
-  /-- at least two scans (the property's quantifier; a single selected line makes `genfromtxt` return a 0-d record) -/
-  nscans : 2 ≤ a.nscans
+  nscans : 0 < a.nscans
   nelements : 0 < a.elements.length
+  /-- at least two lines of the requested channel (two scans, as in the property's quantifier, or two
+  elements): a single selected line makes `genfromtxt` return a 0-d record and the reader raises -/
+  lines : 2 ≤ a.elements.length * a.nscans
   distinct : a.elements.Nodup
   /-- labels fit the 32-character name field and are not changed by the decimal-comma replacement -/
   labels : ∀ e ∈ a.elements, trunc 32 (fixDec comma e) = e
@@ -18,13 +20,20 @@ structure ColsOK {α : Type} (x : Ext α) (sh : Nat → String) (comma : Bool) (
   /-- lines are selected by `channel in line`: the requested channel name occurs in its own lines only -/
   chanSelf : ∀ c, c < a.channels.length → hasSub (a.chan ci) (a.chan c) = (c == ci)
   chanMain : hasSub (a.chan ci) "MainRuns" = false
-  chanEmpty : hasSub (a.chan ci) "" = false
+  chanEol : hasSub (a.chan ci) "\n" = false
   chanScan : ∀ s, s < a.nscans → hasSub (a.chan ci) (sh s) = false
   chanLabel : ∀ e ∈ a.elements, hasSub (a.chan ci) e = false
   chanValue : ∀ i, i < a.samples.length → ∀ s, s < a.nscans → ∀ e, e < a.elements.length → ∀ c, c < a.channels.length →
     hasSub (a.chan ci) (a.value i s e c) = false
   /-- scan numbers survive `str` → `int` -/
-  scans : ∀ s, s < a.nscans → x.readNat (fixDec comma (sh s)) = some s
+  scans : ∀ s, s < a.nscans → x.readInt (fixDec comma (sh s)) = some (s : Int)
+  /-- `np.genfromtxt` cuts a line at a `#`: none in the sample names (line 1) nor in the lines of the
+  requested channel (scan number, label, channel name, values) -/
+  sampleHash : ∀ s ∈ a.samples, hasHash s = false
+  scanHash : ∀ s, s < a.nscans → hasHash (sh s) = false
+  labelHash : ∀ e ∈ a.elements, hasHash e = false
+  chanHash : hasHash (a.chan ci) = false
+  valueHash : ∀ i, i < a.samples.length → ∀ s, s < a.nscans → ∀ e, e < a.elements.length → hasHash (a.value i s e ci) = false
 
 /-- the selected lines of the columns layout: every element, channel `ci`, every scan -/
 def colsSel (m k ci : Nat) : List (Nat × Nat × Nat) :=
@@ -84,8 +93,13 @@ theorem flatMap_elems {β : Type} (a : Acq) (F : String → List β) :
 
 
 def recOf {α : Type} (x : Ext α) (comma : Bool) (a : Acq) (y : Nat × Nat × Nat) : ColRec α :=
-  { scan := y.1, name := a.elem y.2.1,
+  { scan := (y.1 : Int), name := a.elem y.2.1,
     data := (List.range a.samples.length).map (fun i => x.parse (fixDec comma (a.value i y.1 y.2.1 y.2.2))) }
+
+/-- a selected line as `genfromtxt` sees it -/
+def gfColLine (sh : Nat → String) (comma : Bool) (a : Acq) (y : Nat × Nat × Nat) : Row :=
+  "MainRuns" :: fixDec comma (sh y.1) :: fixDec comma (a.elem y.2.1) :: fixDec comma (a.chan y.2.2) ::
+    ((List.range a.samples.length).map (fun i => fixDec comma (a.value i y.1 y.2.1 y.2.2)) ++ [""])
 
 theorem lineStarts_blank (r : Row) : lineStarts ("" :: r) = false := by
   simp only [lineStarts]; decide
@@ -96,11 +110,22 @@ theorem lineStarts_main (r : Row) : lineStarts ("MainRuns" :: r) = true := by
 theorem readCols_render_aux {α : Type} (x : Ext α) (sh : Nat → String) (comma : Bool) (a : Acq) (ci : Nat)
     (h : ColsOK x sh comma a ci) :
     readCols x comma (a.chan ci) (renderCols sh a) = some (specImg x comma a ci) := by
-  obtain ⟨hn, hsn, hm2, hk, hnd, hlab, hci, hself, hmain, hempty, hcscan, hclab, hcval, hsc⟩ := h
-  have hm : 0 < a.nscans := by omega
+  obtain ⟨hn, hsn, hm, hk, hkm, hnd, hlab, hci, hself, hmain, heol, hcscan, hclab, hcval, hsc, hsh, hsch, hlh, hch, hvh⟩ := h
   -- the sample count
-  have hcount : (["", "", "", ""] ++ a.samples ++ [""]).countP (fun f => f != "") = a.samples.length := by
-    simp only [List.countP_append, List.countP_cons, List.countP_nil]
+  have hfirst : gfSplit (["", "", "", ""] ++ a.samples ++ ["\n"]) = "" :: ((["", "", ""] ++ a.samples) ++ [""]) := by
+    have := gfSplit_line "" (["", "", ""] ++ a.samples) (by
+      intro g hg
+      simp only [List.cons_append, List.nil_append, List.mem_cons] at hg
+      rcases hg with hg | hg | hg | hg | hg
+      · rw [hg]; exact hasHash_empty
+      · rw [hg]; exact hasHash_empty
+      · rw [hg]; exact hasHash_empty
+      · rw [hg]; exact hasHash_empty
+      · exact hsh g hg)
+    simpa [lstrip_empty] using this
+  have hcount : (gfSplit (["", "", "", ""] ++ a.samples ++ ["\n"])).countP (fun f => f != "") = a.samples.length := by
+    rw [hfirst]
+    simp only [List.cons_append, List.nil_append, List.countP_append, List.countP_cons, List.countP_nil]
     have : a.samples.countP (fun f => f != "") = a.samples.length := by
       rw [List.countP_eq_length]
       intro s hs
@@ -114,53 +139,70 @@ theorem readCols_render_aux {α : Type} (x : Ext α) (sh : Nat → String) (comm
     unfold colLine
     simp only [List.cons_append, List.nil_append, lineStarts_main, Bool.true_and, lineHas, List.any_cons, List.any_append,
       List.any_map, List.any_nil, Bool.or_false, hmain, hcscan y.1 h1, hclab _ (elem_mem a y.2.1 h2), hself y.2.2 h3,
-      hempty, Bool.false_or]
+      heol, Bool.false_or]
     have : (List.range a.samples.length).any ((hasSub (a.chan ci)) ∘ fun i => a.value i y.1 y.2.1 y.2.2) = false := by
       rw [List.any_eq_false]; intro i hi; simp [hcval i (List.mem_range.mp hi) y.1 h1 y.2.1 h2 y.2.2 h3]
     rw [this]; simp
-  have hsel : ((["", "", "", ""] ++ a.samples.map (fun _ => "<Identifier>") ++ [""]) ::
+  have hsel : ((["", "", "", ""] ++ a.samples.map (fun _ => "<Identifier>") ++ ["\n"]) ::
         (enumCols a.nscans a.elements.length a.channels.length).map (colLine sh a)).filter
           (fun r => lineStarts r && lineHas (a.chan ci) r)
       = (colsSel a.nscans a.elements.length ci).map (colLine sh a) := by
     rw [List.filter_cons]
-    have : lineStarts (["", "", "", ""] ++ a.samples.map (fun _ => "<Identifier>") ++ [""]) = false := lineStarts_blank _
+    have : lineStarts (["", "", "", ""] ++ a.samples.map (fun _ => "<Identifier>") ++ ["\n"]) = false := lineStarts_blank _
     simp only [this, Bool.false_and, Bool.false_eq_true, if_false, List.filter_map]
     congr 1
     rw [← enumCols_filter a.nscans a.elements.length a.channels.length ci hci (fun c => c == ci) (fun _ _ => rfl)]
     apply List.filter_congr
     intro y hy
     exact hline y hy
-  unfold renderCols readCols
-  simp only [hcount, hsel]
-  have h0 : (a.samples.length == 0) = false := by
-    rw [beq_eq_false_iff_ne]; exact Nat.pos_iff_ne_zero.mp hn
-  have hlen : ((colsSel a.nscans a.elements.length ci).map (colLine sh a)).length = a.elements.length * a.nscans := by
+  -- the selected lines as `genfromtxt` sees them
+  have hlines : gfLines comma ((colsSel a.nscans a.elements.length ci).map (colLine sh a))
+      = (colsSel a.nscans a.elements.length ci).map (gfColLine sh comma a) := by
+    apply gfLines_map
+    · intro y hy
+      obtain ⟨hy1, hy2, hy3⟩ := mem_colsSel.mp hy
+      unfold colLine gfColLine
+      simp only [List.cons_append, List.nil_append, List.map_cons, List.map_append, List.map_map, List.map_nil, fixDec_main, fixDec_eol]
+      have := gfSplit_line "MainRuns"
+        (fixDec comma (sh y.1) :: fixDec comma (a.elem y.2.1) :: fixDec comma (a.chan y.2.2) ::
+          (List.range a.samples.length).map (fun i => fixDec comma (a.value i y.1 y.2.1 y.2.2)))
+        (by
+          intro g hg
+          simp only [List.mem_cons, List.mem_map, List.mem_range] at hg
+          rcases hg with hg | hg | hg | hg | ⟨i, hi, hg⟩
+          · rw [hg]; exact hasHash_main
+          · rw [hg, hasHash_fixDec]; exact hsch y.1 hy1
+          · rw [hg, hasHash_fixDec]; exact hlh _ (elem_mem a y.2.1 hy2)
+          · rw [hg, hasHash_fixDec, hy3]; exact hch
+          · rw [← hg, hasHash_fixDec, hy3]; exact hvh i hi y.1 hy1 y.2.1 hy2)
+      simpa [lstrip_main, Function.comp_def] using this
+    · intro y _; rfl
+  have hlen : ((colsSel a.nscans a.elements.length ci).map (gfColLine sh comma a)).length = a.elements.length * a.nscans := by
     rw [List.length_map, length_colsSel]
-  have hkm : 2 ≤ a.elements.length * a.nscans := by
-    calc 2 = 1 * 2 := rfl
-      _ ≤ a.elements.length * a.nscans := Nat.mul_le_mul hk hm2
-  have h1 : ((colsSel a.nscans a.elements.length ci).map (colLine sh a)).isEmpty = false := by
-    cases hc : (colsSel a.nscans a.elements.length ci).map (colLine sh a) with
-    | nil => rw [hc] at hlen; simp at hlen; omega
-    | cons _ _ => rfl
-  have h2 : (((colsSel a.nscans a.elements.length ci).map (colLine sh a)).length == 1) = false := by
-    rw [hlen]; simp; omega
-  have hparse : allSome (((colsSel a.nscans a.elements.length ci).map (colLine sh a)).map (parseColLine x comma a.samples.length))
-      = some ((colsSel a.nscans a.elements.length ci).map (recOf x comma a)) := by
+  have hne : (colsSel a.nscans a.elements.length ci).map (gfColLine sh comma a) ≠ [] := by
+    intro he; rw [he] at hlen; simp at hlen; omega
+  have hsame : sameLen ((colsSel a.nscans a.elements.length ci).map (gfColLine sh comma a)) = some (a.samples.length + 5) := by
+    apply sameLen_of_all _ _ hne
+    intro r hr
+    obtain ⟨y, _, rfl⟩ := List.mem_map.mp hr
+    simp [gfColLine]
+  have hparse : ((colsSel a.nscans a.elements.length ci).map (gfColLine sh comma a)).map (parseColLine x a.samples.length)
+      = (colsSel a.nscans a.elements.length ci).map (recOf x comma a) := by
     rw [List.map_map]
-    apply allSome_map
+    apply List.map_congr_left
     intro y hy
     obtain ⟨hy1, hy2, hy3⟩ := mem_colsSel.mp hy
-    simp only [Function.comp, colLine, List.cons_append, List.nil_append, parseColLine, List.length_append, List.length_map,
-      List.length_range, List.length_cons, List.length_nil, hsc y.1 hy1, hlab _ (elem_mem a y.2.1 hy2)]
-    have : ¬ (a.samples.length + (0 + 1) < a.samples.length) := by omega
-    simp only [this, if_false, recOf]
-    congr 2
+    simp only [Function.comp, gfColLine, parseColLine, recOf, List.getD_cons_succ, List.getD_cons_zero, List.drop_succ_cons, List.drop_zero,
+      hsc y.1 hy1, hlab _ (elem_mem a y.2.1 hy2), Option.getD_some]
+    congr 1
     rw [List.take_append_of_le_length (by simp)]
     rw [List.take_of_length_le (by simp), List.map_map]
     rfl
-  rw [h0, h1, h2, hparse]
-  simp only [Bool.false_eq_true, if_false, List.map_map]
+  have h2 : (((colsSel a.nscans a.elements.length ci).map (gfColLine sh comma a)).length == 1) = false := by
+    rw [hlen]; simp; omega
+  have h0 : (a.samples.length == 0) = false := by
+    rw [beq_eq_false_iff_ne]; exact Nat.pos_iff_ne_zero.mp hn
+  have h3 : ¬ (a.samples.length + 5 < 4 + a.samples.length) := by omega
   have hnames : firstApp ((colsSel a.nscans a.elements.length ci).map ((fun r : ColRec α => r.name) ∘ recOf x comma a)) = a.elements := by
     have : (colsSel a.nscans a.elements.length ci).map ((fun r : ColRec α => r.name) ∘ recOf x comma a)
         = a.elements.flatMap (fun e => (List.range a.nscans).map (fun _ => e)) := by
@@ -173,31 +215,43 @@ theorem readCols_render_aux {α : Type} (x : Ext α) (sh : Nat → String) (comm
       rfl
     rw [this]
     exact firstApp_runs a.elements [] a.nscans hm hnd (by simp)
-  have hw : maxNat ((colsSel a.nscans a.elements.length ci).map ((fun r : ColRec α => r.scan) ∘ recOf x comma a)) + 1 = a.nscans := by
-    apply maxNat_eq _ _ hm
+  have hw : maxInt ((colsSel a.nscans a.elements.length ci).map ((fun r : ColRec α => r.scan) ∘ recOf x comma a)) + 1 = (a.nscans : Int) := by
+    have : (colsSel a.nscans a.elements.length ci).map ((fun r : ColRec α => r.scan) ∘ recOf x comma a)
+        = ((colsSel a.nscans a.elements.length ci).map (·.1)).map (fun (y : Nat) => (y : Int)) := by
+      rw [List.map_map]; rfl
+    rw [this]
+    apply maxInt_eq _ _ hm
     · intro y hy
       obtain ⟨z, hz, rfl⟩ := List.mem_map.mp hy
       exact (mem_colsSel.mp hz).1
     · exact List.mem_map.mpr ⟨(a.nscans - 1, 0, ci), mem_colsSel.mpr ⟨by simp; omega, hk, rfl⟩, rfl⟩
-  rw [hnames, hw, map_elems]
+  have h4 : ¬ ((a.nscans : Int) < 0) := by omega
+  unfold renderCols readCols
+  simp only [hcount, hsel, hlines, h0, h2, hsame, h3, hparse, Bool.false_eq_true, if_false, List.map_map, hnames, hw, h4,
+    Int.toNat_natCast]
+  rw [map_elems]
   have hpl : allSome ((List.range a.elements.length).map (fun ei =>
-      fitWidth a.nscans (transposeN a.samples.length
+      fitCols a.nscans (((colsSel a.nscans a.elements.length ci).map (recOf x comma a)).filter (fun r => r.name == a.elem ei)).length
+      (transposeN a.samples.length
         ((((colsSel a.nscans a.elements.length ci).map (recOf x comma a)).filter (fun r => r.name == a.elem ei)).map (·.data)))))
       = some (specImg x comma a ci).planes := by
     unfold specImg
     apply allSome_map
     intro ei hei
     have hei' := List.mem_range.mp hei
-    have hrows : (((colsSel a.nscans a.elements.length ci).map (recOf x comma a)).filter (fun r => r.name == a.elem ei)).map (·.data)
-        = (List.range a.nscans).map (fun s => (List.range a.samples.length).map (fun i => x.parse (fixDec comma (a.value i s ei ci)))) := by
-      rw [List.filter_map, List.map_map]
+    have hfilt : ((colsSel a.nscans a.elements.length ci).map (recOf x comma a)).filter (fun r => r.name == a.elem ei)
+        = ((List.range a.nscans).map (fun s => (s, ei, ci))).map (recOf x comma a) := by
+      rw [List.filter_map]
       have := colsSel_filter_elem a.nscans a.elements.length ci ei hei' (fun e => a.elem e == a.elem ei)
         (fun e he => elem_inj a hnd e ei he hei')
       have hf : (colsSel a.nscans a.elements.length ci).filter ((fun r : ColRec α => r.name == a.elem ei) ∘ recOf x comma a)
           = (colsSel a.nscans a.elements.length ci).filter (fun y => a.elem y.2.1 == a.elem ei) := rfl
-      rw [hf, this, List.map_map]
+      rw [hf, this]
+    have hrows : (((List.range a.nscans).map (fun s => (s, ei, ci))).map (recOf x comma a)).map (·.data)
+        = (List.range a.nscans).map (fun s => (List.range a.samples.length).map (fun i => x.parse (fixDec comma (a.value i s ei ci)))) := by
+      rw [List.map_map, List.map_map]
       rfl
-    rw [hrows]
+    rw [hfilt, hrows]
     have htr : transposeN a.samples.length
         ((List.range a.nscans).map (fun s => (List.range a.samples.length).map (fun i => x.parse (fixDec comma (a.value i s ei ci)))))
         = (List.range a.samples.length).map (fun i => (List.range a.nscans).map (fun s => x.parse (fixDec comma (a.value i s ei ci)))) := by
@@ -212,10 +266,8 @@ theorem readCols_render_aux {α : Type} (x : Ext α) (sh : Nat → String) (comm
         simp [hi']
       rw [this, List.filterMap_eq_map']
     rw [htr]
-    apply fitWidth_ok
-    intro r hr
-    obtain ⟨i, _, rfl⟩ := List.mem_map.mp hr
-    simp
+    simp only [List.length_map, List.length_range]
+    exact fitCols_ok _ _
   rw [hpl]
   rfl
 
